@@ -58,7 +58,11 @@ def _build_node_circuit(case):
     from pyrates import OperatorTemplate, NodeTemplate, CircuitTemplate
     variables = {}
     for i, v in enumerate(case["vars"]):
-        variables[v] = f"{'output' if i == 0 else 'variable'}({_dec(case['init'][i])})"
+        val = _dec(case['init'][i])
+        if case.get("init_im"):
+            im = Fr(case["init_im"][i])
+            val += ("+" if im >= 0 else "-") + _dec(abs(im)) + "j"
+        variables[v] = f"{'output' if i == 0 else 'variable'}({val})"
     for p, val in zip(case["parnames"], case["parinit"]):
         variables[p] = float(Fr(val))
     if case.get("use_t"):
@@ -73,7 +77,8 @@ def _build_edge_circuit(case):
                           variables={"x": "variable(0.5)", "z": "output(0.25)", "r_in": "input(0.0)"})
     node = NodeTemplate(name="n1", path=None, operators=[op])
     edges = [(f"{case['nodes'][s]}/op1/{'xz'[sv]}", f"{case['nodes'][t]}/op1/r_in", None,
-              {"weight": float(Fr(w)), "delay": float(Fr(d))}) for s, sv, t, w, d in case["edges"]]
+              {"weight": float(Fr(w)), "delay": int(Fr(d)) if isint else float(Fr(d))})
+             for (s, sv, t, w, d), isint in zip(case["edges"], case.get("delay_is_int") or [False] * len(case["edges"]))]
     return CircuitTemplate(name="c", path=None, nodes={k: node for k in case["nodes"]}, edges=edges)
 
 def _polyhist(css):
@@ -203,12 +208,16 @@ def impl(case):
             try:
                 with contextlib.redirect_stdout(io.StringIO()):
                     res = c.run(simulation_time=case["steps"] * dt, step_size=dt, solver=case["solver"], outputs=outputs, backend="default",
-                                vectorize=False, float_precision="float64", clear=False, file_name="c10run")
+                                vectorize=False, float_precision="complex128" if case.get("init_im") else "float64", clear=False, file_name="c10run")
             except Exception as e:
                 return dict(pyr.errclass(e), stage="run")
             assert res.shape[0] == case["steps"], res.shape
-            return {"pos": list(range(len(case["vars"]))),
-                    "out": [[pyr.frac(res[v].values[i]) for v in case["vars"]] for i in range(case["steps"])]}
+            r = {"pos": list(range(len(case["vars"]))),
+                 "out": [[pyr.frac(np.real(res[v].values[i])) for v in case["vars"]] for i in range(case["steps"])]}
+            if case.get("init_im"):
+                assert all(np.iscomplexobj(res[v].values) for v in case["vars"]), res.dtypes
+                r["out_im"] = [[pyr.frac(np.imag(res[v].values[i])) for v in case["vars"]] for i in range(case["steps"])]
+            return r
         if kind == "vec":
             return _impl_vec(case, dt)
         c = _build_edge_circuit(case) if kind == "edge" else _build_node_circuit(case)
@@ -386,12 +395,19 @@ def gen_edge(rng, one_class=False, step_class=False):
     for t in targets:
         s = rng.choice([i for i in range(nn) if i != t])
         edges.append([s, rng.choice([0, 1, 1]), t, str(Fr(rng.choice([-8, -6, -4, -2, -1, 2, 3, 6, 8]), 4)), str(rng.choice(ok_delays))])
+    # delays written as Python/YAML INTEGERS (2, 3 time units) next to float ones
+    is_int = [False] * len(edges)
+    for j in range(len(edges)):
+        if rng.random() < 0.3:
+            edges[j][4], is_int[j] = str(rng.choice([2, 3])), True
     if one_class:
         edges[rng.randrange(len(edges))][4] = "1"
     if step_class:
         edges[rng.randrange(len(edges))][4] = str(rng.choice([Fr(1, 8), Fr(1, 16), Fr(3, 32)]))
     nv = 2 * nn
-    case = dict(kind="edge", nodes=nodes, edges=edges, vars=[f"{n}.{v}" for n in nodes for v in "xz"], parnames=[f"w{j}" for j in range(len(edges))],
+    if one_class or step_class:
+        is_int = [False] * len(edges)
+    case = dict(kind="edge", delay_is_int=is_int, nodes=nodes, edges=edges, vars=[f"{n}.{v}" for n in nodes for v in "xz"], parnames=[f"w{j}" for j in range(len(edges))],
                 solver="scipy", dt="1/8", use_t=False)
     case["eqs"] = edge_eqs(case)
     case["points"] = gen_points(rng, case, nv, len(edges), set())
@@ -481,16 +497,24 @@ def gen_run(rng):
     case["steps"] = max(2, exact_steps(case))
     return case
 
+def imag_case(case):
+    """the system the imaginary parts of a complex-valued run obey (right-hand sides with real coefficients and parameters)"""
+    eqs = [[[c, fs] for c, fs in r if any(f[0] in ("v", "past") for f in fs)] for r in case["eqs"]]
+    return dict(case, eqs=eqs, init=case["init_im"], init_im=None)
+
 def gen_long_run(rng):
-    """one run that crosses the first growth of the history buffer (1024 rows): x' = k0 (exactly linear), v' = x(t-d1) - x(t-d2);
+    """one run that crosses the first growth of the history buffer (1024 rows): x' = k0 (exactly linear), v' = x(t-d1) - x(t-d2)/2 (so that real AND imaginary parts of the delayed values matter);
     the delays are 1.5 and 2.5 steps, so that every step interpolates between the two or three most recent rows"""
     dt = rng.choice([Fr(1, 4), Fr(1, 8)])
     vars_ = rng.sample(VARPOOL, 2)
     case = dict(kind="run", vars=vars_, init=[str(Fr(rng.randint(1, 4), 2)), str(Fr(rng.randint(-4, 4), 2))], parnames=["k0", "d0"],
                 parinit=[str(rng.choice([Fr(1, 2), 1, Fr(-1, 2)])), str(dt * Fr(5, 2))],
-                eqs=[[["1", [["p", 0]]]], [["1", [["past", 0, ["lit", str(dt * Fr(3, 2))], 1]]], ["-1", [["past", 0, ["par", 1], 0]]]]],
+                eqs=[[["1", [["p", 0]]]], [["1", [["past", 0, ["lit", str(dt * Fr(3, 2))], 1]]], ["-1/2", [["past", 0, ["par", 1], 0]]]]],
                 solver=rng.choice(["euler", "heun"]), dt=str(dt), steps=rng.randint(1040, 1100), use_t=False, long=True)
-    assert exact_steps(case) == case["steps"]
+    # complex-valued states (float_precision='complex128'): real coefficients act on real and imaginary parts separately, so the
+    # imaginary parts obey the same recurrence without its state-free terms; both parts are dyadic, the arithmetic stays exact
+    case["init_im"] = [str(Fr(rng.choice([-3, -1, 1, 3]), 2)), str(Fr(rng.choice([-3, -1, 1, 3]), 4))]
+    assert exact_steps(case) == case["steps"] and exact_steps(imag_case(case)) == case["steps"]
     return case
 
 def gen_vec(rng, f5_class=False):
@@ -716,11 +740,13 @@ def model_compare(ctx, cases, outs, tag):
                ("r", ("run",), "rcase", ("rokI", "rokS", "rg1"), coq_rcase, None),
                ("v", ("vec",), "vcase", ("vokI", "vokS", "vg"), coq_vcase, GUARDS[1]))
     for kind, kinds_, ty, names, mk, guard in streams:
-        idx = [i for i, c in enumerate(cases) if c["kind"] in kinds_]
+        items = [(i, cases[i], outs[i] if "out" in outs[i] else dummy_res(cases[i])) for i, c in enumerate(cases) if c["kind"] in kinds_]
+        items += [(i, imag_case(c), dict(r, out=r["out_im"])) for i, c, r in items if c.get("init_im") and "out_im" in r]
+        idx = [i for i, _, _ in items]
         shard = 80
         for s in range(0, len(idx), shard):
             part = idx[s:s + shard]
-            terms = [mk(cases[i], outs[i] if "out" in outs[i] else dummy_res(cases[i])) for i in part]
+            terms = [mk(c, r) for _, c, r in items[s:s + shard]]
             body = (f"Definition cases : list {ty} := " + clist(terms) + ".\n" +
                     "".join(f"Eval vm_compute in (mismatches {n} cases).\n" for n in names))
             ls = parse_nat_lists(coq_eval(ctx, f"c10_{tag}_{kind}{s}", HEADER, body))
@@ -870,6 +896,8 @@ def check(ctx):
                 models_with_two_delays_on_one_variable=sum(1 for i in good if any(len({d for y, d in set(past_keys(cases[i])) if y == x}) >= 2 for x, _ in past_keys(cases[i]))),
                 models_delaying_a_variable_not_in_slot_0=sum(1 for i in good if any(outs[i]["pos"][x] != 0 for x, _ in past_keys(cases[i]))),
                 step_sizes=sorted({c["dt"] for c in cases}, key=lambda s: Fr(s))[:12],
+                integer_edge_delays=sum(sum(c.get("delay_is_int") or []) for c in cases if c["kind"] == "edge"),
+                complex_valued_runs=sum(1 for c in cases if c.get("init_im")),
                 heun_runs=sum(1 for c in cases if c["kind"] == "run" and c["solver"] == "heun"),
                 adaptive_runs=dict(cases=sum(1 for c in cases if c["kind"] == "adapt"),
                                    lookups=sum(o.get("bookkeeping", {}).get("lookups", 0) for o in outs if isinstance(o.get("bookkeeping"), dict)),
